@@ -116,6 +116,10 @@ Mixed == {Alt(<<R(97, 99), R(100, 102)>>),                       \* adjacent
           Alt(<<[k |-> "cls", n |-> "ASCII_HEX_DIGIT"], [k |-> "cls", n |-> "ASCII_ALPHA_UPPER"]>>),
           Alt(<<R(55295, 57344), S1(65535)>>), Alt(<<R(65535, 65536), R(1114110, 1114111), S1(0)>>),
           \* ranges that abut the surrogate block from both sides ("any scalar value"): U+D800..U+DFFF stay outside
+          \* ranges that share their first code point, the longer one first / last; a class, a single and another class that overlaps it
+          Alt(<<R(48, 57), R(48, 55)>>), Alt(<<R(48, 55), R(48, 57)>>), Alt(<<R(97, 122), R(97, 97), S1(65)>>),
+          Alt(<<[k |-> "cls", n |-> "ASCII_ALPHA"], S1(95), [k |-> "cls", n |-> "ASCII_HEX_DIGIT"]>>),
+          Alt(<<[k |-> "cls", n |-> "ASCII_HEX_DIGIT"], S1(95), [k |-> "cls", n |-> "ASCII_ALPHA"]>>),
           Alt(<<R(0, 55295), R(57344, 1114111)>>), Alt(<<R(57344, 65535), R(32, 55295)>>), Alt(<<R(256, 55295), S1(57344)>>),
           Alt(<<S1(91), S1(93), R(40, 41), S1(123), S1(125)>>),
           Alt(<<R(0, 31), R(127, 159), S1(32)>>),
